@@ -567,8 +567,11 @@ def body_natural_breaks(case, ctx):
                    "within-class SSD %r > optimum %r (+tol %.3g); k=%d values %s labels %s"
                    % (got, opt, tol, k, v64.tolist()[:20], of[fin].astype(int).tolist()[:20]))
         return r
+    nonf32 = bool(a.dtype.kind != "f" or a.dtype == np.float64) and bool((v64.astype("float32").astype("float64") != v64).any())
+    r.label("optimality_asserted", "optimality_asserted[%s]" % ("nonf32 values" if nonf32 else "f32-representable"))
+    if nonf32 and opt > 0:
+        r.label("optimality_asserted[nonf32 values, opt>0]")
     if got > opt + tol:
-        nonf32 = bool(a.dtype.kind != "f" or a.dtype == np.float64) and bool((v64.astype("float32").astype("float64") != v64).any())
         r.fail("natural_breaks.suboptimal_partition[%s]" % ("values not float32-representable" if nonf32 else "float32-representable values"),
                "within-class SSD %r > optimum %r (+tol %.3g); k=%d n=%d labels of sorted values %s"
                % (got, opt, tol, k, n, of[fin][np.argsort(v64, kind="stable")].astype(int).tolist()[:60]))
@@ -939,14 +942,14 @@ def shards(tier):
     def rnd(name, count, body, strat, per):
         for i in range(count):
             out.append(("%s#%d" % (name, i), lambda ctx, body=body, strat=strat, per=per: drive_hypothesis(ctx, body, strat, per)))
-    rnd("binary_rand", 2 if not th else 4, body_binary, binary_cases(side if not th else 24), 350 if not th else 2000)
-    rnd("reclass_rand", 3 if not th else 6, body_reclassify, reclassify_cases(side if not th else 24), 400 if not th else 2500)
-    rnd("eqint_rand", 3 if not th else 6, body_equal_interval, equal_interval_cases(side if not th else 30), 400 if not th else 2500)
-    rnd("quant_rand", 3 if not th else 6, body_quantile, quantile_cases(side if not th else 30), 350 if not th else 2000)
-    rnd("nb_rand", 3 if not th else 6, body_natural_breaks, natural_breaks_cases(side if not th else 16), 300 if not th else 1500)
-    rnd("nb_nonf32", 2 if not th else 4, body_natural_breaks, natural_breaks_nonf32_cases(side if not th else 16), 300 if not th else 1500)
+    rnd("binary_rand", 2 if not th else 4, body_binary, binary_cases(side if not th else 24), 500 if not th else 2500)
+    rnd("reclass_rand", 3 if not th else 6, body_reclassify, reclassify_cases(side if not th else 24), 700 if not th else 3000)
+    rnd("eqint_rand", 3 if not th else 6, body_equal_interval, equal_interval_cases(side if not th else 30), 600 if not th else 3000)
+    rnd("quant_rand", 3 if not th else 6, body_quantile, quantile_cases(side if not th else 30), 500 if not th else 2500)
+    rnd("nb_rand", 4 if not th else 6, body_natural_breaks, natural_breaks_cases(side if not th else 16), 400 if not th else 2000)
+    rnd("nb_nonf32", 2 if not th else 4, body_natural_breaks, natural_breaks_nonf32_cases(side if not th else 16), 400 if not th else 2000)
     if th:
-        rnd("nb_large", 4, body_natural_breaks, natural_breaks_cases(40, dtypes=["float64", "float64", "float32", "int64"]), 120)
+        rnd("nb_large", 4, body_natural_breaks, natural_breaks_cases(40, dtypes=["float64", "float64", "float32", "int64"]), 150)
     nmax = 256 if th else 64
     ns = list(range(1, nmax + 1))
     for dt in SWEEP_DTYPES:
